@@ -179,6 +179,25 @@ Classify(v) == IF MustReject(v) THEN "reject"
                ELSE "accept"
 
 ----------------------------------------------------------------------------
+\* size lemmas: the classification does not depend on HOW LONG a run of payload characters is
+\* nor on HOW OFTEN a continuation line is repeated.  They justify the size-stressed
+\* concretizations of the harness (payload runs of 4 096 / 65 536 characters, 100 / 1 000
+\* continuation lines): the expectation computed for the small value is length-independent.
+\* TLC checks them for one duplication of every payload character / every repeatable line of
+\* every value of the bounded configuration (StretchInvariant, RepeatInvariant); longer runs
+\* follow by repeating the step.
+IsPayload(c)  == c \notin {Colon, Hash} /\ ~IsPySpace(c) /\ ~IsUBoundary(c)
+DupAt(v, i)   == SubSeq(v, 1, i) \o SubSeq(v, i, Len(v))                     \* v[i] twice
+\* a continuation line together with the boundary in front of it: <<first index, last index>>;
+\* repeatable when the line is not empty
+Segs(v) == {s \in {<<a[1], e>> : a \in Bnd(v), e \in 1..Len(v)} :
+              /\ \E a \in Bnd(v) : /\ a[1] = s[1] /\ a[2] < s[2]
+                                   /\ \A j \in (a[2] + 1)..s[2] : ~IsUBoundary(v[j])
+              /\ (s[2] = Len(v) \/ IsUBoundary(v[s[2] + 1]))}
+DupSeg(v, s)  == SubSeq(v, 1, s[2]) \o SubSeq(v, s[1], Len(v))               \* the segment twice
+SameClass(v, w) == Classify(v) = Classify(w) /\ Accept(v) = Accept(w) /\ BlankCont(v) = BlankCont(w)
+
+----------------------------------------------------------------------------
 \* paragraphs: sequences of [k |-> name, v |-> value]; assignment
 KeysOf(p) == [i \in 1..Len(p) |-> p[i].k]
 AssignOutcome(p, pos, v) == IF Accept(v) THEN [res |-> "ok", para |-> [p EXCEPT ![pos].v = v]]
@@ -328,6 +347,7 @@ CaseLine(v, o) == Emit => PrintT(<<"CASE", ToJson([v     |-> v,
                                                     acc   |-> Accept(v),
                                                     blank |-> BlankCont(v),
                                                     zs    |-> IF ZoneWhatIf /\ ~Accept(v) /\ Classify(v) = "zone" THEN SoundIfStored(v, o) ELSE TRUE,
+                                                    segs  |-> Segs(v),
                                                     keys  |-> KeysOf(P0),
                                                     wt    |-> DiagWs(v, o)])>>)
 
@@ -350,5 +370,7 @@ RejectExact    == Accept(inp) <=> ~DefectU(inp)
 ZonesNested    == MustReject(inp) => DefectU(inp)
 RejectAtomic   == res = "ValueError" => para = P0 /\ \A pos \in Positions : AssignOutcome(P0, pos, inp).para = P0
 AcceptStores   == res = "ok" => para = Stored(P0, 2, inp)
+StretchInvariant == \A i \in 1..Len(inp) : IsPayload(inp[i]) => SameClass(inp, DupAt(inp, i))
+RepeatInvariant  == \A s \in Segs(inp) : SameClass(inp, DupSeg(inp, s))
 ReaderTotal    == Accept(inp) => \A pos \in Positions : out[pos].clean
 =============================================================================
